@@ -16,8 +16,8 @@ TraceReset == /\ l <= Len(Trace) /\ Ev.event = "reset" /\ l' = l + 1
 Last == log'[Len(log')]
 TraceOp == /\ l <= Len(Trace) /\ Ev.event # "reset" /\ l' = l + 1 /\ Ev.e <= Len(ext)
            /\ \/ (Ev.event = "derive" /\ Derive(Ev.e, Ev.kind))
-              \/ (Ev.event = "pagecount" /\ NonTerminal(Ev.e))
-              \/ (Ev.event = "text" /\ Terminal(Ev.e))
+              \/ (Ev.event = "pagecount" /\ NonTerminal(Ev.e, Ev.kind))
+              \/ (Ev.event = "text" /\ Terminal(Ev.e, Ev.kind))
               \/ (Ev.event = "close" /\ Close(Ev.e))
            /\ Last.res = Ev.res /\ Ev.open <= Last.open
            /\ (Ev.event = "text" /\ Ev.res = "ok") => Last.pages = Ev.pages
